@@ -150,6 +150,13 @@ CHECKS["C09"] = dict(
     technique="symbolic execution of the real writer code on symbolic table entries with numeral-token tracing through the real reader (symx); obligations "
               "are symbol-identity checks (no SMT query arises); concrete twin for the text layer",
     ref="5/C09")
+CHECKS["C20"] = dict(
+    text="LinearGaussianBayesianNetwork.to_joint_gaussian and predict, and GaussianDistribution.marginalize/reduce/copy, run with symbolic intercepts, "
+         "coefficients, positive variances and observed values on every DAG with <=3 nodes and every observed/missing split; numpy's inverse is replaced "
+         "by symbolic Gauss-Jordan elimination. Results are compared entry-wise (identities of rational functions) with an independent oracle: means by "
+         "recursive substitution, covariances by the structural-equation recursion, conditionals through a cofactor inverse.",
+    note="Partial: fit (least squares via sklearn), simulate, pdf values, canonical-form conversion/product, LAPACK itself and the 8-decimal rounding are "
+         "outside. Bounds: <=3 nodes (4 thorough).", ref="5/C20")
 
 NOT_APPLICABLE = {
     "C19": "statistic, dof and p-value are produced inside pandas.groupby / numpy.bincount / scipy.stats.chi2_contingency / chi2.cdf "
